@@ -5,7 +5,7 @@ CONSTANTS
   StartPairs = {1, 2}
   MaxEdits = 1
   DistKinds = {"fpn", "missing", "wrf"}
-  NsCheckFirst = TRUE
+  NsCheckFirst = FALSE
   ReencodeBoth = TRUE
 INVARIANT WF
 PROPERTY DefaultFresh
